@@ -660,7 +660,17 @@ func checkC16(p *Prog, r *Report) {
 		for _, c := range p.CallsTo(f, false, "fmt.Sprintf") {
 			for _, a := range c.Args[1:] {
 				if !p.mentionsCall(a, "ice.candidateBase.Address") && !p.mentionsCall(a, "ice.Candidate.Address") {
-					continue
+					// a named local holding the (possibly zone-cut) address
+					_, isID := unparen(a).(*ast.Ident)
+					if !isID {
+						continue
+					}
+					if okV, _ := p.verbatimText(f, a, func(e ast.Expr) bool {
+						ce, isC := unparen(e).(*ast.CallExpr)
+						return isC && strings.HasSuffix(p.CalleeName(ce), ".Address") && len(ce.Args) == 0
+					}, 0); !okV {
+						continue
+					}
 				}
 				n++
 				ok, why := p.verbatimText(f, a, func(e ast.Expr) bool {
@@ -1056,6 +1066,94 @@ func checkC16(p *Prog, r *Report) {
 		})
 		r.Check(ok && nRet > 0, "decoder "+f.Name+" stores through its receiver before reporting success", p.Pos(f.Body.Pos()), "every 'return nil' preceded by a store through the receiver", "a path returns nil without storing the decoded value: decoding (for instance an empty list) into a variable that already holds a value leaves the old value there, so decode(encode(x)) != x")
 	}
+
+	// ---- R16.9 a separator ends a token, whatever the token's length ------------------------------------------
+	r.Rule("R16.9", "In every tokenizer of the candidate parser (a function that scans the line and tests each character against SP), a character that is the separator ends the token successfully: under 'char == SP' no error return is reachable, so a token of exactly the permitted length (a 32-character foundation, a 10-digit priority, a 5-digit port) that Marshal writes is accepted by Unmarshal.", 3)
+	{
+		n := 0
+		for _, f := range p.AllFuncs {
+			if f.Pkg != p.Ice || f.Body == nil || f.Decl == nil {
+				continue
+			}
+			g := p.CFG(f)
+			// the scanned character: the operand compared with the constant 0x20
+			var charObj types.Object
+			for _, b := range g.Blocks {
+				for _, e := range b.Succs {
+					for _, ft := range p.FactsOfCond(e.Cond, e.Val) {
+						if ft.Op == "==" {
+							if v, ok := p.ConstVal(ft.Y); ok && v == "32" {
+								if id, ok := unparen(ft.X).(*ast.Ident); ok && charObj == nil {
+									charObj = p.ObjOf(id)
+								}
+							}
+						}
+					}
+				}
+			}
+			if charObj == nil {
+				continue
+			}
+			sig, _ := f.Obj.Type().(*types.Signature)
+			ei := errIndex(sig)
+			if ei < 0 {
+				continue // a tokenizer that cannot fail
+			}
+			// a function that scans: it has a loop
+			hasLoop := false
+			walkBody(f, func(x ast.Node) bool {
+				switch x.(type) {
+				case *ast.RangeStmt, *ast.ForStmt:
+					hasLoop = true
+				}
+				return true
+			})
+			if !hasLoop {
+				continue
+			}
+			start := Loc{g.Entry, 0}
+			n++
+			isSuccess := func(nd ast.Node) bool {
+				rs, ok := nd.(*ast.ReturnStmt)
+				return ok && ei < len(rs.Results) && p.isNilExpr(rs.Results[ei])
+			}
+			notSP := func(e *Edge) bool {
+				for _, ft := range p.FactsOfCond(e.Cond, e.Val) {
+					if ft.Op == "==" && !ft.Val {
+						if v, ok := p.ConstVal(ft.Y); ok && v == "32" {
+							if id, ok := unparen(ft.X).(*ast.Ident); ok && p.ObjOf(id) == charObj {
+								return false // the edge on which the character is not the separator
+							}
+						}
+					}
+				}
+				return true
+			}
+			bad := ""
+			walkBody(f, func(x ast.Node) bool {
+				rs, ok := x.(*ast.ReturnStmt)
+				if !ok || ei >= len(rs.Results) || p.isNilExpr(rs.Results[ei]) || bad != "" {
+					return true
+				}
+				loc, okL := g.Locate(rs)
+				if !okL {
+					return true
+				}
+				if loc.B == start.B {
+					bad = p.Pos(rs.Pos())
+					return true
+				}
+				if _, found := g.PathAvoiding(Loc{start.B, start.I}, isSuccess, func(b *Block) bool { return b == loc.B }, notSP); found {
+					bad = p.Pos(rs.Pos())
+				}
+				return true
+			})
+			r.Check(bad == "", "tokenizer "+f.Name+": a separator always ends the token successfully", p.Pos(f.Body.Pos()), "no error return reachable while the character is SP", "the error return at "+bad+" can be taken although the current character is the separator (for instance the length test comes first): a token of exactly the maximal length is rejected, so a line that Marshal writes does not parse")
+		}
+		if n < 3 {
+			r.Fail("tokenizers", "candidate_base.go", fmt.Sprintf("only %d tokenizers with an SP test and an error result found (rule instance lost)", n))
+		}
+	}
 }
 
 // verbatimText: e derives from a source (accepted by isSrc) only by substring
@@ -1087,6 +1185,35 @@ func (p *Prog) verbatimText(f *Func, e ast.Expr, isSrc func(ast.Expr) bool, dept
 			}
 			if d.Index == 0 {
 				return p.verbatimText(f, d.Rhs, isSrc, depth+1)
+			}
+		}
+		// a local assigned on several paths (addr := src; if cut { addr = before }): every value must be verbatim;
+		// a value derived from the local itself is verbatim if the others are
+		if o := p.ObjOf(x); o != nil {
+			if p.verbatimVisiting == nil {
+				p.verbatimVisiting = map[types.Object]bool{}
+			}
+			if p.verbatimVisiting[o] {
+				return true, ""
+			}
+			if ds := p.DefsOf(f, o); len(ds) > 1 {
+				p.verbatimVisiting[o] = true
+				defer delete(p.verbatimVisiting, o)
+				for _, d := range ds {
+					if d.Rhs == nil {
+						return false, "assigned by something other than a substring of the address (" + stripVarLines(p.Canon(e)) + ")"
+					}
+					rhs := d.Rhs
+					if c, isC := unparen(rhs).(*ast.CallExpr); isC && d.Index <= 1 && p.CalleeName(c) == "strings.Cut" {
+						rhs = c.Args[0]
+					} else if d.Index != 0 {
+						return false, "assigned from result " + itoa(d.Index) + " of " + stripVarLines(p.Canon(rhs))
+					}
+					if ok, why := p.verbatimText(f, rhs, isSrc, depth+1); !ok {
+						return false, why
+					}
+				}
+				return true, ""
 			}
 		}
 		return false, "defined by something other than a substring of the address (" + stripVarLines(p.Canon(e)) + ")"
